@@ -425,8 +425,8 @@ def main():
     both = sorted(set(pairs) | {(b, a) for a, b in pairs})
     texts = F.f_rule_singles(ops, contexts=("stack",) if tier == "quick" else ("stack", "consumed", "twice"))
     texts += F.consuming_singles(ops + ["SMOD", "SAR", "BYTE", "SIGNEXTEND"])
-    texts += F.f_rule_singles(ops, contexts=("both", "bothstore"))[:: (7 if tier == "quick" else 1)]
-    texts += F.f_rule_singles(["SAR", "SMOD", "BYTE", "SIGNEXTEND", "ADDMOD", "MULMOD", "MOD"], contexts=("stack",))[:: (4 if tier == "quick" else 1)]
+    texts += F.f_rule_singles(ops, contexts=("both", "bothstore"))[:: (14 if tier == "quick" else 1)]
+    texts += F.f_rule_singles(["SAR", "SMOD", "BYTE", "SIGNEXTEND", "ADDMOD", "MULMOD", "MOD"], contexts=("stack",))[:: (8 if tier == "quick" else 1)]
     texts += F.f_rule_chains(ops, depth=3 if tier == "quick" else 4)
     texts += F.f_rule_pairs(both, consts=[0, 1, F.MASK] if tier == "quick" else F.K3, contexts=("stack",),
                             chains=(0,) if tier == "quick" else (0, 1))
@@ -439,7 +439,7 @@ def main():
         texts += F.f_exh(3)
     else:
         texts += F.f_exh(2)
-        texts += F.f_rule_existing()[::24]
+        texts += F.f_rule_existing()[::48]
         texts += F.f_rule_siblings(ops, consts=(0, 1))[::4]
         texts += F.f_rule_triples(both)[::4]
     texts = list(dict.fromkeys(texts))
